@@ -1,3 +1,305 @@
-/- Model for C08: not written yet -/
+/-
+C08 — only Ingresses classified for this controller are configured.
+
+Model of
+  * pkg/controller/services/cache.go  `(*c).IsValidIngress`, `GetIngress`, `GetIngressList`
+    (and the textual copy pkg/controller/legacy/cache.go `(*k8scache).IsValidIngress`),
+  * pkg/controller/reconciler/watchers.go `handlersIngress`: the predicates of the Ingress
+    kind and the add / upd / del classification,
+  * the part of pkg/converters/ingress/ingress.go `syncPartial` that decides which Ingress
+    objects are (re)read after an IngressClass event (tracker link class -> ingress, kept only
+    for ingresses that were converted).
+Core-only.
+
+Abstraction of one Ingress: the value of the `kubernetes.io/ingress.class` annotation
+(absent / the controller's class / anything else), what `spec.ingressClassName` resolves to
+(absent / an IngressClass whose controller is ours / one whose controller is not / a name
+with no IngressClass object) and opaque fingerprints of the other annotations, of the rest of
+the spec and of the rest of the metadata (needed by the update predicate).
+-/
 namespace HapVerif.C08
+
+inductive Ann | absent | ours | foreign
+deriving DecidableEq, Repr, Inhabited
+
+inductive Cls | absent | ours | foreign | dangling
+deriving DecidableEq, Repr, Inhabited
+
+structure Cfg where
+  /-- `--watch-ingress-without-class` -/
+  watch : Bool
+  /-- `--ingress-class-precedence` -/
+  prec : Bool
+  /-- `config.ControllerName == ""`.  `GetIngressClass` returns a pointer to a zero
+  IngressClass together with the error, so the `ingClass != nil` test always succeeds and a
+  dangling name is compared as `"" == ControllerName`.  config.go builds the name from a
+  non-empty literal, hence `false` in every deployment (fact `c08ControllerNameLit`). -/
+  ctrlEmpty : Bool := false
+deriving DecidableEq, Repr
+
+/-- `c.IsValidIngressClass(ingClass)` for what `GetIngressClass(*className)` returns -/
+def fromClassOf (cfg : Cfg) : Cls → Bool
+  | .absent => false
+  | .ours => true
+  | .foreign => false
+  | .dangling => cfg.ctrlEmpty
+
+/-- cache.go:126 `IsValidIngress`, branch by branch -/
+def isValidIngress (cfg : Cfg) (ann : Ann) (cls : Cls) : Bool :=
+  let hasAnn := ann != .absent
+  let fromAnn :=
+    if cfg.watch then !hasAnn || ann == .ours
+    else hasAnn && ann == .ours
+  let hasClass := cls != .absent
+  let fromClass := if hasClass then fromClassOf cfg cls else false
+  if hasAnn then
+    if hasClass && fromAnn != fromClass then
+      if cfg.prec then fromClass else fromAnn
+    else fromAnn
+  else if hasClass then fromClass
+  else fromAnn
+
+/-! ## Spec: the documented rule (docs/content/en/docs/configuration/keys.md "Class matter",
+command-line.md "Ingress Class") -/
+
+/-- "Ingress resources have the annotation kubernetes.io/ingress.class with the value <class>" -/
+def annSays : Ann → Bool
+  | .ours => true
+  | _ => false
+
+/-- "ingressClassName field assigning an IngressClass resource whose controller name is <ours>" -/
+def clsSays : Cls → Bool
+  | .ours => true
+  | _ => false
+
+/-- * unclassified (neither annotation nor ingressClassName): selected iff `--watch-ingress-without-class`;
+    * only one of them: that one decides;
+    * both: if they agree that is the answer, "if they conflict the annotation value wins",
+      unless `--ingress-class-precedence` ("IngressClass resource should take precedence"). -/
+def spec (cfg : Cfg) (ann : Ann) (cls : Cls) : Bool :=
+  match ann, cls with
+  | .absent, .absent => cfg.watch
+  | .absent, c => clsSays c
+  | a, .absent => annSays a
+  | a, c => if annSays a = clsSays c then annSays a else if cfg.prec then clsSays c else annSays a
+
+/-- `GetIngress`: the object is returned iff it exists and is valid -/
+def getIngress (cfg : Cfg) (o : Option (Ann × Cls)) : Bool :=
+  match o with
+  | some (a, c) => isValidIngress cfg a c
+  | none => false
+
+/-- `GetIngressList`: filter through `IsValidIngress`, order kept -/
+def getIngressList {α} (cfg : Cfg) (l : List (α × Ann × Cls)) : List α :=
+  (l.filter fun x => isValidIngress cfg x.2.1 x.2.2).map (·.1)
+
+/-! ## Watchers -/
+
+structure Obj where
+  ann : Ann
+  cls : Cls
+  /-- fingerprint of the other annotations -/
+  annRest : Nat := 0
+  /-- fingerprint of the rest of the spec -/
+  specRest : Nat := 0
+  /-- fingerprint of labels and other metadata that neither predicate looks at -/
+  metaRest : Nat := 0
+deriving DecidableEq, Repr, Inhabited
+
+def Obj.valid (cfg : Cfg) (o : Obj) : Bool := isValidIngress cfg o.ann o.cls
+def Obj.selected (cfg : Cfg) (o : Obj) : Bool := spec cfg o.ann o.cls
+
+/-- `predicate.Or(AnnotationChangedPredicate, GenerationChangedPredicate)` on an update.
+Interface assumption (API server): `metadata.generation` changes iff the spec changes. -/
+def changed (o n : Obj) : Bool :=
+  o.ann != n.ann || o.annRest != n.annRest || o.cls != n.cls || o.specRest != n.specRest
+
+inductive Ev
+  | create (n : Obj)
+  | update (o n : Obj)
+  | delete (o : Obj)
+deriving Repr
+
+inductive Act | add | upd | del | none
+deriving DecidableEq, Repr, Inhabited
+
+/-- predicates (conjunction) followed by the handler's add/upd/del; `none` = filtered out or
+listed nowhere -/
+def classify (cfg : Cfg) : Ev → Act
+  | .create n => if n.valid cfg then .add else .none
+  | .delete o => if o.valid cfg then .del else .none
+  | .update o n =>
+    if !(changed o n) then .none
+    else if !(o.valid cfg || n.valid cfg) then .none
+    else if o.valid cfg && n.valid cfg then .upd
+    else if !(o.valid cfg) && n.valid cfg then .add
+    else if o.valid cfg && !(n.valid cfg) then .del
+    else .none
+
+/-- what the Spec asks of one event -/
+def wanted (cfg : Cfg) : Ev → List Act
+  | .create n => if n.selected cfg then [.add] else [.none]
+  | .delete o => if o.selected cfg then [.del] else [.none]
+  | .update o n =>
+    match o.selected cfg, n.selected cfg with
+    | false, true => [.add]
+    | true, false => [.del]
+    | false, false => [.none]
+    | true, true => if changed o n then [.upd] else [.none, .upd]
+
+/-! ## Histories of one cluster: ingresses `0..`, API-server operations -/
+
+inductive Op
+  | create (i : Nat) (n : Obj)
+  | update (i : Nat) (n : Obj)
+  | delete (i : Nat)
+deriving Repr
+
+structure St where
+  /-- API server content -/
+  world : Nat → Option Obj
+  /-- the ingresses that currently contribute to the configuration.  Interface to C01:
+  an ingress listed in `IngressesAdd` is converted, one listed in `IngressesDel` has everything
+  it added removed, one in `IngressesUpd` is removed and converted again. -/
+  contrib : Nat → Bool
+
+def St.init : St := { world := fun _ => none, contrib := fun _ => false }
+
+def set {α} (f : Nat → α) (i : Nat) (v : α) : Nat → α := fun j => if j = i then v else f j
+
+def applyAct (c : Nat → Bool) (i : Nat) : Act → (Nat → Bool)
+  | .add => set c i true
+  | .del => set c i false
+  | .upd => set c i true
+  | .none => c
+
+/-- the event the informer delivers for an operation (none if the operation is impossible) -/
+def eventOf (s : St) : Op → Option (Nat × Ev)
+  | .create i n => match s.world i with | none => some (i, .create n) | some _ => none
+  | .update i n => match s.world i with | some o => some (i, .update o n) | none => none
+  | .delete i => match s.world i with | some o => some (i, .delete o) | none => none
+
+def worldAfter (s : St) : Op → (Nat → Option Obj)
+  | .create i n => match s.world i with | none => set s.world i (some n) | some _ => s.world
+  | .update i n => match s.world i with | some _ => set s.world i (some n) | none => s.world
+  | .delete i => set s.world i none
+
+def step (cfg : Cfg) (s : St) (op : Op) : St :=
+  match eventOf s op with
+  | none => s
+  | some (i, ev) => { world := worldAfter s op, contrib := applyAct s.contrib i (classify cfg ev) }
+
+def run (cfg : Cfg) (ops : List Op) : St := ops.foldl (step cfg) St.init
+
+def validAt (cfg : Cfg) (w : Nat → Option Obj) (i : Nat) : Bool :=
+  match w i with
+  | some o => o.valid cfg
+  | none => false
+
+/-! ## One ingress and one IngressClass object: class events (the part of the property that
+the ingress events alone do not cover) -/
+
+/-- the IngressClass object the ingress may name -/
+inductive ClassObj | none | ours | foreign
+deriving DecidableEq, Repr, Inhabited
+
+/-- does the ingress name that class (`r = true`) or nothing (`false`) -/
+structure Ing2 where
+  ann : Ann
+  ref : Bool
+deriving DecidableEq, Repr, Inhabited
+
+def resolve (k : ClassObj) (i : Ing2) : Cls :=
+  if i.ref then (match k with | .none => .dangling | .ours => .ours | .foreign => .foreign) else .absent
+
+def Ing2.valid (cfg : Cfg) (k : ClassObj) (i : Ing2) : Bool := isValidIngress cfg i.ann (resolve k i)
+def Ing2.selected (cfg : Cfg) (k : ClassObj) (i : Ing2) : Bool := spec cfg i.ann (resolve k i)
+
+inductive Op2
+  | ingCreate (i : Ing2)
+  | ingUpdate (i : Ing2)
+  | ingDelete
+  | classSet (k : ClassObj)     -- create / update / delete of the IngressClass object
+deriving DecidableEq, Repr
+
+structure St2 where
+  cls : ClassObj := .none
+  ing : Option Ing2 := none
+  /-- the ingress is part of the configuration -/
+  contrib : Bool := false
+deriving DecidableEq, Repr
+
+def classValid : ClassObj → Bool
+  | .ours => true
+  | _ => false
+
+/-- One reconciliation per operation.
+Ingress events (partial sync): `classify`, then the converter converts Add, removes Del,
+re-converts Upd (`trackAddedIngress` links the hosts of the rules of an updated ingress before
+the dirty set is computed, so an Upd converts the ingress even if it did not contribute;
+ingresses here have one rule — the tracking gaps of rule-less ingresses belong to C01).
+Class events: predicate `IsValidIngressClass old ∨ new` (create: new, delete: old).
+  * `fullOnClass = true` (the code as it is: the IngressClass handler has `full: true`):
+    an accepted event asks for a full sync, which reads every ingress through
+    `GetIngressList`, i.e. the ingress contributes iff it is valid;
+  * `fullOnClass = false` (the handler without the flag, kept to show why it is needed):
+    the handler only records the link `IngressClass/<name>` and `syncPartial` re-reads through
+    `GetIngress` exactly the ingresses the tracker links to that class, i.e. those converted
+    while naming it: the ingress if it `contrib`utes and `ref`s. -/
+def step2 (cfg : Cfg) (fullOnClass : Bool) (s : St2) : Op2 → St2
+  | .ingCreate i =>
+    match s.ing with
+    | some _ => s
+    | none => { s with ing := some i, contrib := i.valid cfg s.cls }
+  | .ingUpdate n =>
+    match s.ing with
+    | none => s
+    | some o =>
+      let ev := Ev.update ⟨o.ann, resolve s.cls o, 0, 0, 0⟩ ⟨n.ann, resolve s.cls n, 0, 0, 0⟩
+      { s with ing := some n,
+               contrib := match classify cfg ev with
+                 | .add => true | .del => false | .upd => true | .none => s.contrib }
+  | .ingDelete =>
+    match s.ing with
+    | none => s
+    | some o => { s with ing := none, contrib := if o.valid cfg s.cls then false else s.contrib }
+  | .classSet k =>
+    if k = s.cls then s else
+    let accepted := classValid s.cls || classValid k
+    let s' := { s with cls := k }
+    if !accepted then s' else
+    match s.ing with
+    | none => if fullOnClass then { s' with contrib := false } else s'
+    | some i =>
+      if fullOnClass then { s' with contrib := i.valid cfg k }
+      else if s.contrib && i.ref then { s' with contrib := i.valid cfg k } else s'
+
+def run2 (cfg : Cfg) (fullOnClass : Bool) (ops : List Op2) : St2 := ops.foldl (step2 cfg fullOnClass) {}
+
+def selectedNow (cfg : Cfg) (s : St2) : Bool :=
+  match s.ing with
+  | some i => i.selected cfg s.cls
+  | none => false
+
+/-! ## Oracle on implementation outputs -/
+
+/-- `valid` cases: the facade's IsValidIngress / GetIngress / GetIngressList answers -/
+def oracleValid (cfg : Cfg) (a : Ann) (c : Cls) (v get list : Bool) : Option String :=
+  if v != spec cfg a c then some "class-rule"
+  else if get != spec cfg a c then some "get-filter"
+  else if list != spec cfg a c then some "list-filter"
+  else none
+
+def oracleEvent (cfg : Cfg) (ev : Ev) (act : Act) : Option String :=
+  if (wanted cfg ev).contains act then none else
+  match ev with
+  | .create _ => some "create-misclassified"
+  | .delete _ => some "delete-misclassified"
+  | .update o n =>
+    match o.selected cfg, n.selected cfg with
+    | false, true => some "became-selected-not-added"
+    | true, false => some "became-unselected-not-removed"
+    | false, false => some "unselected-event-delivered"
+    | true, true => some "update-lost"
+
 end HapVerif.C08
